@@ -1194,8 +1194,8 @@ def main():
         check_tiles(ck, env, ck.budget(1500, 30000), use_model)
         check_cache(ck, env, ck.budget(60, 1500), use_model)
         check_cold_start(ck, env, rounds=1 if ck.tier == "quick" else 10)
-        explore_elev(ck, env, ck.budget(100, 1500), use_model)
-        check_histories(ck, env, ck.budget(30, 600))
+        explore_elev(ck, env, ck.budget(85, 1500), use_model)
+        check_histories(ck, env, ck.budget(24, 600))
         if ck.broken() and not ck.violations:
             # failing-input search on the real code (oracle only) with the larger budget
             aligned_edges(ck, env, False)
